@@ -244,3 +244,106 @@ func notAddresses(g *vlib.Rng) {
 		}
 	}
 }
+
+// refHrpOK: BIP173 - the human-readable part has 1 to 83 characters in 33..126; an encoder does not emit upper case.
+func refHrpOK(hrp string) bool {
+	if len(hrp) < 1 || len(hrp) > 83 {
+		return false
+	}
+	for i := 0; i < len(hrp); i++ {
+		if hrp[i] < 33 || hrp[i] > 126 || (hrp[i] >= 'A' && hrp[i] <= 'Z') {
+			return false
+		}
+	}
+	return true
+}
+
+// hrpStream: bech32.Encode / SegwitEncode with every kind of human-readable part. Added after the second audit: the
+// general stream only produced 1..10 bytes in 33..126, so the guard `ch < 33 || ch > 126`, the empty hrp (finding
+// bech32-encode-empty-hrp, fixed by aaaa0fae) and the `range`-over-code-points loops of Encode with its length test
+// on the LOOP VARIABLE were never reached. Every case goes through checkB32 (Encode = BIP173 reference string exactly
+// when encodable, else ""; model; loops-as-written model) or checkSegEnc.
+func hrpStream(g *vlib.Rng) {
+	rd := func(n int) []byte {
+		d := make([]byte, n)
+		for j := range d {
+			d[j] = byte(g.Intn(32))
+		}
+		return d
+	}
+	hit := func(k string) { r.Hit("b32-hrp/" + k) }
+	// the empty hrp (witness of the fixed finding) with several data lengths, both variants; SegwitEncode / SegwitProg
+	for _, dl := range []int{0, 1, 3, 33, 52, 82, 83, 84} {
+		for _, m := range []bool{false, true} {
+			hit("empty")
+			checkB32("", rd(dl), m)
+		}
+	}
+	checkB32("", []byte{0, 1, 2}, false) // was "1qpzceglat"
+	checkSegEnc("", 0, make([]byte, 20))
+	checkSegEnc("", 1, g.Bytes(32))
+	checkSegEnc("", 16, g.Bytes(2))
+	// every byte value alone and inside an otherwise valid hrp (guards 33 / 126 / upper case / 0x80..0xff)
+	for b := 0; b < 256; b++ {
+		hit("byte")
+		checkB32(string([]byte{byte(b)}), rd(g.Intn(6)), g.Bool())
+		checkB32("a"+string([]byte{byte(b)})+"z", rd(g.Intn(6)), g.Bool())
+		if b%8 == 0 || b < 34 || (b > 124 && b < 132) {
+			checkSegEnc("b"+string([]byte{byte(b)}), g.Pick(0, 1), g.Bytes(20))
+		}
+	}
+	// code points of 2, 3 and 4 bytes, aliases of ASCII letters, invalid and truncated sequences, at every position
+	cps := []string{"\u00e9", "\u0161", "\u0162", "\u0263", "\u20ac", "\uff42", "\uff43", "\u212a", "\u017f", "\U00010062", "\U0001f600", "\u0080", "\u07ff", "\u0800", "\uffff",
+		"\xc3", "\xe2\x82", "\xf0\x9f\x98", "\xc0\xa2", "\xe0\x80\xa2", "\xed\xa0\x80", "\xf4\x90\x80\x80", "\xa2", "\xff", "\xc3\x28"}
+	for _, cp := range cps {
+		for _, frame := range [][2]string{{"", ""}, {"b", ""}, {"", "c"}, {"b", "c"}, {"bc", "tb"}} {
+			hit("utf8")
+			checkB32(frame[0]+cp+frame[1], rd(g.Intn(8)), g.Bool())
+		}
+		checkSegEnc("b"+cp, 0, g.Bytes(20))
+	}
+	// the 90-character limit seen from Encode: hrp + 7 + data around 90, hrp valid; and the same lengths with ONE invalid
+	// or multi-byte character at the first / last position (the loop variable then differs from len(hrp))
+	for _, hl := range []int{1, 2, 3, 10, 40, 82, 83, 84, 85, 90, 120} {
+		for total := 88; total <= 92; total++ {
+			dl := total - hl - 7
+			if dl < 0 {
+				if total != 90 {
+					continue
+				}
+				dl = 0
+			}
+			hrp := make([]byte, hl)
+			for j := range hrp {
+				hrp[j] = "abcdefghijklmnopqrstuvwxyz023456789-_~!"[g.Intn(39)]
+			}
+			hit("limit")
+			checkB32(string(hrp), rd(dl), g.Bool())
+			bad := append([]byte{}, hrp...)
+			pos := g.Pick(0, hl-1, g.Intn(hl))
+			bad[pos] = byte(g.Pick(0x20, 0x7f, 0x80, 0xc3, 0xe2, 0xff, 'Q'))
+			checkB32(string(bad), rd(dl), g.Bool())
+			if hl >= 3 {
+				two := string(hrp[:hl-2]) + "\u00e9" // same byte length, last code point 2 bytes wide
+				checkB32(two, rd(dl), g.Bool())
+			}
+		}
+	}
+	// random hrps over ALL byte values, mostly-valid ones with one odd byte, upper case
+	for i := 0; i < r.N(600, 20000); i++ {
+		hl := g.Intn(12)
+		hrp := make([]byte, hl)
+		for j := range hrp {
+			switch g.Intn(10) {
+			case 0:
+				hrp[j] = byte(g.U64())
+			case 1:
+				hrp[j] = byte(g.Pick(32, 33, 126, 127, 128, 'A', 'Z', '1'))
+			default:
+				hrp[j] = "abcdefghijklmnopqrstuvwxyz0123456789"[g.Intn(36)]
+			}
+		}
+		hit("random")
+		checkB32(string(hrp), rd(g.Intn(20)), g.Bool())
+	}
+}
